@@ -68,6 +68,9 @@ class Obligation(object):
         self.name, self.hyps, self.goal, self.where, self.kind = name, list(hyps), goal, where, kind
 
 
+BRANCH_IDS = set()       # AST ids of facts that are branch conditions (as opposed to assumptions / emitted axioms)
+
+
 class Ctx(object):
     """state of one path"""
 
@@ -110,7 +113,9 @@ class Ctx(object):
         if i < len(self.decisions):
             d = self.decisions[i]
             self.taken.append(d)
-            self.facts.append(c if d else z3.Not(c))
+            f = c if d else z3.Not(c)
+            self.facts.append(f)
+            BRANCH_IDS.add(f.get_id())
             return d
         if z3.is_const(c) and c.decl().kind() == z3.Z3_OP_UNINTERPRETED and c.decl().name().split('!')[0] in GHOST_CHOICES:
             can_t = can_f = True         # a fresh ghost choice (a fault that may or may not happen ...): both sides feasible
@@ -127,7 +132,9 @@ class Ctx(object):
         else:
             raise PathEnd()
         self.taken.append(d)
-        self.facts.append(c if d else z3.Not(c))
+        f = c if d else z3.Not(c)
+        self.facts.append(f)
+        BRANCH_IDS.add(f.get_id())
         return d
 
     def feasible(self, extra):
